@@ -426,7 +426,7 @@ def _dispatch(fn, args):
 def run(tier, seed):
     rep = Report(PID, tier, seed, "translation_validation")
     cfgs = configs(tier, seed)
-    vts = [(CP.P3(), None, 1, 0.05), (CP.P25(), None, 2, 0.25), (CP.P1(), 4.0, 2, 0.03125)]
+    vts = [(CP.P3(), None, 1, 0.05), (CP.P25(), None, 2, 0.25), (CP.P1(), 4.0, 2, 0.03125), (CP.P8(), None, 2, 0.25), (CP.P17(), None, 2, 0.25), (CP.P16(), None, 1, 0.25), (CP.P12(), None, 2, 0.25)]
     if tier != "quick":
         vts += [(CP.P25(), 4.0, 1, 0.05), (CP.P10(), None, 1, 0.0625), (CP.P17(), None, 1, 0.05)]
     tasks = [(task, (p, k, rows, tier, seed)) for p, k, rows in cfgs] + [(task_variants, (p, k, rows, md, tier, seed)) for p, k, rows, md in vts]
